@@ -358,6 +358,17 @@ def group(rep, model):
 
 
 def models_agree(ctx, models, at, nd, a0):
+    if models is not None and models[0] == 'map' and nd == 2 and models[1][0] == 'zip':
+        # the tables and the signals iterated in lockstep (zip / map(f, tables, sigs)): one position per signal, given one table per signal (which C11 decides)
+        want = ('range', C(0), T.length(('param', 'sigs')), C(1))
+        comps = models[1][1] if len(models[1]) == 2 and isinstance(models[1][1], tuple) else ()
+        if want in comps:
+            o_, n_ = ('lv', models[1], 0), ('lv', want, 0)
+            models = ('map', want, T.subst(models[2], lambda y: n_ if y == o_ else None))
+            for h_ in ctx.heap.values():            # what the loaded objects hold is written in terms of the same loop variable
+                for k_, v_ in list(h_['attrs'].items()):
+                    if isinstance(v_, tuple) and any(y == o_ for y in T.walk(v_)):
+                        h_['attrs'][k_] = T.subst(v_, lambda y: n_ if y == o_ else None)
     if models is not None and models[0] == 'map' and nd == 2 and models[1][0] == 'range':
         # a comprehension over the signals: the same element-wise definition as zeros(...).tolist() + a full-range store
         models = ('arr', ('call', 'zeros', (), ()), ((('lv', models[1], 0), models[2], T.TRUE),))
